@@ -28,10 +28,12 @@ LEVEL_NOTE = ("Trusted: vf.refs.kvline (Tor's SETCONF grammar), ConfTor/ConfigSt
 RULE = ("a case = one option table (>= 1 option of every declared type + 1-2 *PortLines families, random initial values) "
         "x one history of <= 12 steps (assign / append / extend / insert / remove / pop / setitem / slice-setitem / "
         "save accepted / save rejected 513|552), option names spelled in random case; class 'midack' additionally makes "
-        "one edit between save() and its ack. Distinct = hash of (table, steps). Non-trivial = at least one SETCONF line "
+        "one edit between save() and its ack; class 'alias' assigns to a list option the object read from ANOTHER list "
+        "option of this or of a second TorConfig, saves, then edits target and source in place. Distinct = hash of (table, steps). Non-trivial = at least one SETCONF line "
         "was decoded and compared with the reference pending set.")
 ASSUMPTIONS = [
-    "values never need C-escapes (no quote, backslash, tab, CR, LF): encoding of such values is C12's subject",
+    "String / Filename values and LineList elements include double quotes, backslashes, tabs and leading/trailing blanks "
+    "(decoded from the wire by the kvline reference); CR/LF and other control characters are C12's subject",
     "FakeTor does not echo CONF_CHANGED for the controller's own SETCONF here (that path is C11's)",
     "in-place mutation of an option that also has a pending whole-value assignment is not generated (DESIGN C10 L)",
     "comma-list options are judged on the wire form only: one joined value or one item per element (DESIGN C10 L)",
@@ -60,13 +62,15 @@ ANCHORS = [
 ]
 FLOORS = {
     "quick": {"evaluations": 450, "setconf_lines_decoded": 800, "quiet_checks": 2000, "saves_rejected": 130,
-              "reads_compared": 1400, "second_save_checks": 600, "midack_edits": 80, "inplace_ops": 500,
+              "reads_compared": 1300, "second_save_checks": 600, "midack_edits": 80, "inplace_ops": 500,
+              "escaped_values_decoded": 80, "assigned_from_other_option": 150,
               "reach:txtorcon.torconfig:TorConfig.save": 1500,
               "reach:txtorcon.torconfig:TorConfig.mark_unsaved": 500,
               "reach:txtorcon.torconfig:TorConfig._save_completed": 650,
               "reach:txtorcon.torcontrolprotocol:TorControlProtocol.set_conf": 800},
     "thorough": {"evaluations": 9000, "setconf_lines_decoded": 15000, "quiet_checks": 40000, "saves_rejected": 2500,
                  "reads_compared": 25000, "second_save_checks": 10000, "midack_edits": 1500, "inplace_ops": 9000,
+                 "escaped_values_decoded": 1500, "assigned_from_other_option": 1500,
                  "reach:txtorcon.torconfig:TorConfig.save": 30000,
                  "reach:txtorcon.torcontrolprotocol:TorControlProtocol.set_conf": 15000},
 }
@@ -141,6 +145,7 @@ class Model(object):
                     self.fuzzy.add(n)
             else:
                 self.view[n] = o["init"][-1] if o["init"] else (o["default"][-1] if o["default"] else None)
+        self.initial = {n: (list(v) if isinstance(v, list) else v) for n, v in self.view.items()}
 
     def kind(self, n):
         return CT.kind_of(self.types[n])
@@ -158,7 +163,17 @@ class Model(object):
         """pending[name] = (how, value, serial of the edit)"""
         n = st["opt"]
         self.serial += 1
-        if st["op"] == "assign":
+        if st["op"] == "assign" and st.get("from"):
+            # the value is whatever the view of the source option returns at this moment
+            y = st["from"]["opt"]
+            if st["from"]["other"]:
+                val = list(self.initial[y])
+            elif y in self.pending and self.pending[y][0] == "inplace":
+                val = list(self.pending[y][1])
+            else:
+                val = list(self.view[y])
+            self.pending[n] = ("assign", val, self.serial)
+        elif st["op"] == "assign":
             if self.kind(n) == "scalar":
                 self.pending[n] = ("assign", validated(self.types[n], st["value"]), self.serial)
             else:
@@ -184,7 +199,31 @@ class Model(object):
 # ---------------------------------------------------------------------------
 # generation
 
+NASTY = ['say "hi"', '"quoted"', 'C:\\tor\\data', 'back\\slash "and" quote', 'tab\there', ' leading blank',
+         'trailing blank ', '  both  ', 'a"b', '\\', '"', 'ends with backslash\\', 'notice file "/var/log/my tor.log"',
+         'x=\\"y\\"', "single 'quotes'", '\\"', 'two  spaces', '#not a comment', 'semi;colon']
+
+
+def nasty(rnd, plain):
+    """string-like values that need Tor's QuotedString escapes on the wire (or are easy to mangle)"""
+    r = rnd.random()
+    if r < 0.5:
+        return rnd.choice(NASTY)
+    if r < 0.75:
+        return plain + " " + rnd.choice(NASTY)
+    return rnd.choice(NASTY).strip() + " " + plain
+
+
 def gen_assign_value(rnd, typ):
+    v = _gen_assign_value(rnd, typ)
+    if typ in CT.STR_TYPES and rnd.random() < 0.3:
+        return nasty(rnd, v)
+    if typ == CT.LINELIST and v and rnd.random() < 0.3:
+        v[rnd.randrange(len(v))] = nasty(rnd, v[0])
+    return v
+
+
+def _gen_assign_value(rnd, typ):
     k = CT.kind_of(typ)
     if k == "scalar":
         if typ == CT.BOOL:
@@ -217,6 +256,8 @@ def gen_assign_value(rnd, typ):
 
 
 def gen_elem(rnd, typ):
+    if typ == CT.LINELIST and rnd.random() < 0.15:
+        return nasty(rnd, CT.gen_line(rnd))
     k = CT.kind_of(typ)
     if k == "commalist":
         return CT.gen_csv(rnd, typ, 1)[0]
@@ -303,6 +344,70 @@ def gen_edit(rnd, m, exclude_assigned_inflight=()):
     raise RuntimeError("no edit found")
 
 
+def gen_assign_from(rnd, m, other=None):
+    """X = <view of another list option Y of the same kind> (Y of this or of another TorConfig)"""
+    names = list(m.order)
+    rnd.shuffle(names)
+    for x in names:
+        if m.kind(x) == "scalar":
+            continue
+        ys = [y for y in m.order if y != x and m.kind(y) == m.kind(x)
+              and not (y in m.pending and m.pending[y][0] == "assign")]
+        if not ys:
+            continue
+        y = rnd.choice(ys)
+        if other is None:
+            other = rnd.random() < 0.25
+        if other and rnd.random() < 0.3:
+            y = x if not (x in m.pending and m.pending[x][0] == "assign") else y
+        return {"op": "assign", "name": CT.anycase(rnd, x), "opt": x,
+                "from": {"opt": y, "name": CT.anycase(rnd, y), "other": bool(other)}}
+    return None
+
+
+def gen_inplace_on(rnd, m, n):
+    meth, args = gen_inplace(rnd, m, n)
+    return {"op": "inplace", "name": CT.anycase(rnd, n), "opt": n, "method": meth, "args": args}
+
+
+def gen_alias_case(rnd, table):
+    """assign a value read from another option, save, then edit target and source in place"""
+    m = Model(table)
+    steps = []
+
+    def add(st):
+        m.edit(st)
+        steps.append(st)
+
+    def save(rep="ok"):
+        steps.append({"op": "save", "reply": rep})
+        if rep == "ok":
+            m.ack(dict(m.pending))
+    for _ in range(rnd.choice([0, 0, 1, 2])):
+        add(gen_edit(rnd, m))
+    af = gen_assign_from(rnd, m)
+    x, y, other = af["opt"], af["from"]["opt"], af["from"]["other"]
+    if not other and not (y in m.pending) and rnd.random() < 0.3:
+        add(gen_inplace_on(rnd, m, y))
+    add(af)
+    if rnd.random() < 0.2:
+        save(rnd.choice([513, 552]))
+    save()
+    order = rnd.choice([[x], [x, y], [y, x], [x, x], [y]])
+    for n in order:
+        if n in m.pending and m.pending[n][0] == "assign":
+            continue
+        add(gen_inplace_on(rnd, m, n))
+        if rnd.random() < 0.5:
+            save()
+    save()
+    if rnd.random() < 0.5:
+        n = rnd.choice([x, y])
+        add(gen_inplace_on(rnd, m, n))
+        save()
+    return steps
+
+
 def gen_reply(rnd):
     r = rnd.random()
     return "ok" if r < 0.68 else (513 if r < 0.84 else 552)
@@ -310,6 +415,8 @@ def gen_reply(rnd):
 
 def gen_case(rnd, mode):
     table = c10_table(rnd)
+    if mode == "alias":
+        return {"mode": mode, "table": table, "steps": gen_alias_case(rnd, table)}
     m = Model(table)
     steps = []
     if mode == "midack":
@@ -347,7 +454,8 @@ def gen_case(rnd, mode):
             if rep == "ok":
                 m.ack(dict(m.pending))
         else:
-            st = gen_edit(rnd, m)
+            st = gen_assign_from(rnd, m) if rnd.random() < 0.06 else None
+            st = st or gen_edit(rnd, m)
             m.edit(st)
             steps.append(st)
     steps.append({"op": "save", "reply": "ok"})
@@ -361,6 +469,30 @@ class Stop(Exception):
     pass
 
 
+def vfeat(v):
+    """structural features of a value (or list of values) that matter for the wire encoding"""
+    vals = [str(x) for x in v] if isinstance(v, list) else [str(v)]
+    f = set()
+    for x in vals:
+        if '"' in x:
+            f.add("dquote")
+        if "\\" in x:
+            f.add("backslash")
+        if "\t" in x:
+            f.add("tab")
+        if x != x.strip(" "):
+            f.add("edge-blank")
+    return "+".join(sorted(f))
+
+
+def line_class(expected):
+    """class of a whole SETCONF line: the encoding-relevant features of the pending values"""
+    f = set()
+    for hv in expected.values():
+        f.update(x for x in vfeat(hv[1]).split("+") if x)
+    return "values:" + ("+".join(sorted(f)) or "plain")
+
+
 def tor_busy(link):
     return bool(link.tor.inbox or link.tor.outbox)
 
@@ -372,6 +504,7 @@ class Run(object):
         self.m = Model(case["table"])
         self.rejected_before = False
         self.decoded = 0
+        self.other = None            # a second, never edited TorConfig over the same table (source of values)
 
     def V(self, clause, cls, detail):
         self.rec.violation(clause, cls, detail, self.case)
@@ -391,7 +524,15 @@ class Run(object):
         n0 = len(link.transport.writes)
         exc = None
         try:
-            if st["op"] == "assign":
+            if st["op"] == "assign" and st.get("from"):
+                src = cfg
+                if st["from"]["other"]:
+                    if self.other is None:
+                        self.other = CT.boot(self.case["table"])[0]
+                    src = self.other
+                setattr(cfg, st["name"], getattr(src, st["from"]["name"]))     # the very object the view returned
+                self.rec.count("assigned_from_other_option")
+            elif st["op"] == "assign":
                 setattr(cfg, st["name"], list(st["value"]) if isinstance(st["value"], list) else st["value"])
             else:
                 lst = getattr(cfg, st["name"])
@@ -458,16 +599,16 @@ class Run(object):
                        {"written": data, "must": must})
             return False
         if not data.endswith(b"\r\n") or data.count(b"\r\n") != 1:
-            self.V("save-wrote-%s-lines" % ("several" if data.count(b"\r\n") > 1 else "partial"), self.cls(any_n),
+            self.V("save-wrote-%s-lines" % ("several" if data.count(b"\r\n") > 1 else "partial"), line_class(expected),
                    {"written": data, "pending": expected})
         line = data[:-2].decode("latin1")
         word, _, rest = line.partition(" ")
         if word.upper() != "SETCONF":
-            self.V("not-a-setconf", self.cls(any_n), {"line": line})
+            self.V("not-a-setconf", line_class(expected), {"line": line})
         try:
             items = kvline.parse(rest)
         except kvline.KvError as e:
-            self.V("setconf-unparseable", self.cls(any_n), {"line": line, "err": str(e)})
+            self.V("setconf-unparseable", line_class(expected), {"line": line, "err": str(e)})
         self.rec.count("setconf_lines_decoded")
         self.rec.count("setconf_items_decoded", len(items))
         self.decoded += 1
@@ -475,7 +616,7 @@ class Run(object):
         for k, v in items:
             c = tor.conf.canon(k)
             if c is None or c not in m.types:
-                self.V("setconf-unknown-option", "general", {"line": line, "key": k})
+                self.V("setconf-unknown-option", line_class(expected), {"line": line, "key": k})
             groups.setdefault(c, []).append(v)
         self.rec.seen("options_per_setconf", str(len(groups)))
         for c, vals in groups.items():
@@ -487,7 +628,8 @@ class Run(object):
                 if len(vals) != 1:
                     self.V("scalar-sent-%d-times" % len(vals), self.cls(c), {"line": line, "option": c})
                 if vals[0] != want:
-                    self.V("scalar-value", self.cls(c), {"line": line, "option": c, "want": want, "got": vals[0]})
+                    self.V("scalar-value", self.cls(c, *filter(None, [vfeat(want)])),
+                           {"line": line, "option": c, "want": want, "got": vals[0]})
             else:
                 if kind == "commalist" and want != []:
                     # an empty comma list may be viewed as [''] (C11 leniency): empty items carry nothing
@@ -499,9 +641,13 @@ class Run(object):
                     clause = "list-elements"
                     if sorted(map(str, vals)) == sorted(want):
                         clause = "list-order"
-                    self.V(clause, self.cls(c), {"line": line, "option": c, "want": want, "got": vals})
+                    self.V(clause, self.cls(c, *filter(None, [vfeat(want)])),
+                           {"line": line, "option": c, "want": want, "got": vals})
             self.rec.count("options_compared")
             self.rec.seen("kinds_delivered", m.klass(c) + "/" + how)
+            if vfeat(want):
+                self.rec.count("escaped_values_decoded")
+                self.rec.seen("value_features", vfeat(want))
         for c in sorted(must):
             if c not in groups:
                 if must[c][1] == []:
@@ -655,6 +801,8 @@ def replay(case, rec):
 
 def plan(tier, seed):
     if tier == "quick":
-        return [{"mode": "seq", "n": 300} for _ in range(13)] + [{"mode": "midack", "n": 300} for _ in range(3)]
+        return [{"mode": "seq", "n": 300} for _ in range(11)] + [{"mode": "midack", "n": 300} for _ in range(3)] + \
+            [{"mode": "alias", "n": 300} for _ in range(2)]
     return [{"mode": "seq", "n": 3200, "timeout_s": 3000} for _ in range(26)] + \
-           [{"mode": "midack", "n": 3200, "timeout_s": 3000} for _ in range(6)]
+           [{"mode": "midack", "n": 3200, "timeout_s": 3000} for _ in range(6)] + \
+           [{"mode": "alias", "n": 3200, "timeout_s": 3000} for _ in range(4)]
